@@ -5,6 +5,8 @@ for d in seeded/*/; do
   n=$(basename $d)
   case "$n" in *$1*) ;; *) continue;; esac
   id=${n%%-*}
+  # the check named first in meta.json "detected_by" (a few seeded changes are caught by a neighbouring property's check)
+  id=$(/venv/bin/python tools/seed_check_id.py $d)
   out=$(tools/mutant.sh /verif/$d/patch.diff $id quick ${SEED:-1} 2>&1)
   rc=$(echo "$out" | grep -o "rc=[0-9]*" | tail -1)
   sig=$(echo "$out" | grep -m1 -E "VIOLATION|patch failed|HARNESS" | sed 's/.*# //' | cut -c1-100)
